@@ -59,6 +59,8 @@ func runC14(p *core.Program, r *core.Report) {
 	// A5: "no panic": every index and slice expression of the resolver is in bounds
 	c14R12(p, r, fs)
 	c14R13(p, r, fs)
+	c14R14(p, r, fs)
+	c14R15(p, r, fs)
 	r.Floor("A5", 10)
 	for _, f := range fs {
 		a5Check(r, "A5", f, resultIndexTactic(p))
